@@ -5,6 +5,10 @@ V = os.path.dirname(os.path.dirname(os.path.abspath(__file__)))
 ALL = ["C%02d" % i for i in range(1, 20)]
 TECH = "symbolic execution of the real /repo source on z3 bit-vector proxies (symx), per-path SMT queries, concrete replay"
 CLAIMED = {
+ "C12": dict(text="Bounded symbolic verification against a standards-only target model with an arbitrary-function disk: "
+                  "inductive step per facade call (symbolic probe address) plus explicit W;R / W;W;R / WS;R histories with "
+                  "independent full-width symbolic LBAs (every aliasing decided by z3), over both transports' stubs.",
+             ref="3/C12", note="spec/target_model.py trusted; block size <= 4 bytes, tl <= 3; protection info / cache semantics outside"),
  "C06": dict(text="Bounded symbolic verification: canonical responses from independent builders (fields symbolic); the real "
                   "marshall/unmarshall pairs run both ways; z3 decides byte equality of marshall(unmarshall(b)) with b, "
                   "dictionary equality of unmarshall(marshall(d)) with d, and single-field read-modify-write of mode pages.",
